@@ -1,8 +1,17 @@
 """C14 -- degree-of-freedom bookkeeping is a lossless partition for every BC set (FunctionSpace.DofManager)."""
 import json
+import resource
 import types
 
 from vlib import common as C
+
+# coqc reifies vm_compute results of several 10^4 list cells recursively; give the child processes the full stack
+try:
+    _soft, _hard = resource.getrlimit(resource.RLIMIT_STACK)
+    resource.setrlimit(resource.RLIMIT_STACK, (_hard, _hard))
+except (ValueError, OSError):
+    pass
+MAX_ENTRIES = 9000     # cap on nElements * (nodesPerElement*dim)^2 per case (keeps one model evaluation under a few seconds)
 
 ID = 'C14'
 READY = True
@@ -74,11 +83,18 @@ def gen_cases(ctx):
         if structured:
             Nx, Ny = r.randrange(2, 5), r.randrange(2, 5)
             order = r.choice([1, 1, 2, 3])
+            npe = (order + 1) * (order + 2) // 2
+            while 2 * (Nx - 1) * (Ny - 1) * (npe * dim) ** 2 > MAX_ENTRIES:
+                if Nx >= Ny:
+                    Nx -= 1
+                else:
+                    Ny -= 1
             case = dict(src='structured', Nx=Nx, Ny=Ny, order=order, dim=dim)
         else:
             npe = r.choice([3, 3, 6, 10])
             nNodes = r.randrange(max(2, npe // 2), 26)
             nEl = r.randrange(1, 13)
+            nEl = max(1, min(nEl, MAX_ENTRIES // (npe * dim) ** 2))
             # arbitrary numbering; nodes may even repeat inside an element (degenerate but index-valid)
             conns = [[r.randrange(nNodes) for _ in range(npe)] if r.random() < 0.2 else
                      (r.sample(range(nNodes), npe) if nNodes >= npe else [r.randrange(nNodes) for _ in range(npe)])
@@ -258,8 +274,10 @@ def conclusions(o):
     if not (len(rows) == len(cols) == sum(mask)):
         bad.append('lengths of HessRowCoords/HessColCoords/mask count differ: %d %d %d' % (len(rows), len(cols), sum(mask)))
         return bad
-    k = 0
-    seen = set()
+    # the mask must be True exactly on the pairs whose two dofs are unknown; the k-th True entry (row-major) must carry the unknown
+    # numbers of that pair.  The property text does not fix the orientation, so either consistent orientation is accepted here
+    # ((unk b, unk a) is what the current source and the model do; L1 pins it); anything else is a violation.
+    exp_t, exp_s = [], []
     for e, en in enumerate(conns):
         dofs = [n * dim + c for n in en for c in range(dim)]
         for a in range(nd):
@@ -270,18 +288,17 @@ def conclusions(o):
                     bad.append('mask[%d,%d,%d]=%d but both-unknown=%s' % (e, a, b, m, both))
                     return bad
                 if m:
-                    if (rows[k], cols[k]) != (d2u[dofs[b]], d2u[dofs[a]]):
-                        bad.append('entry %d (element %d, a=%d, b=%d): (row, col)=(%d,%d), expected (unk b, unk a)=(%d,%d)'
-                                   % (k, e, a, b, rows[k], cols[k], d2u[dofs[b]], d2u[dofs[a]]))
-                        return bad
-                    if not (0 <= rows[k] < len(unk) and 0 <= cols[k] < len(unk)):
-                        bad.append('coordinate out of range at entry %d' % k)
-                    if (e, a, b) in seen:
-                        bad.append('pair addressed twice')
-                    seen.add((e, a, b))
-                    k += 1
-    if k != len(rows):
-        bad.append('number of addressed pairs %d != number of coordinates %d' % (k, len(rows)))
+                    exp_t.append((d2u[dofs[b]], d2u[dofs[a]]))
+                    exp_s.append((d2u[dofs[a]], d2u[dofs[b]]))
+    got = list(zip(rows, cols))
+    if len(got) != len(exp_t):
+        bad.append('number of addressed pairs %d != number of coordinates %d' % (len(exp_t), len(got)))
+    elif got != exp_t and got != exp_s:
+        k = [i for i in range(len(got)) if got[i] != exp_t[i]][0]
+        bad.append('coordinate entry %d is (row, col)=%s, expected (unk b, unk a)=%s (or the transposed convention throughout)' % (k, got[k], exp_t[k]))
+    if any(not (0 <= x < len(unk)) for p in got for x in p):
+        bad.append('a Hessian coordinate is outside 0..nUnknowns-1')
+    o['orientation'] = 'transposed (row = unknown of b)' if got == exp_t else 'straight'
     return bad
 
 
@@ -336,8 +353,16 @@ def correspondence(ctx, model_ok, cases=None):
     outs = []
     distinct = set()
     kinds = {}
+    kept = []
     for case in cases:
-        o = run_impl(case)
+        try:
+            o = run_impl(case)
+        except Exception as ex:      # a valid mesh / BC set must be accepted by the implementation
+            ctx.count('evaluations')
+            ctx.fail('conclusion', 'DofManager raised %s: %s on a valid input (%s BCs, dim %d)' % (type(ex).__name__, str(ex)[:200], case['kind'], case['dim']),
+                     case=slim(case), concrete=True)
+            continue
+        kept.append(case)
         outs.append(o)
         ctx.count('evaluations')
         nb = sum(o['isBc'])
@@ -362,7 +387,7 @@ def correspondence(ctx, model_ok, cases=None):
         return
     res = C.coq_eval(IMPORTS, [model_expr(o) for o in outs], 'C14', shard=ctx.n(6, 12), timeout=900)
     nm = 0
-    for case, o, zs in zip(cases, outs, res):
+    for case, o, zs in zip(kept, outs, res):
         mism = compare(o, zs)
         ctx.count('model_vs_impl_comparisons', len(FIELDS) + len(o['slices']) + len(o['comp_slices']))
         for (f, m, w) in mism[:2]:
@@ -402,7 +427,11 @@ def replay(ctx, path):
     if not case:
         print('no concrete failing input recorded; broken obligations:', rep.get('broken'))
         return 1
-    o = run_impl(case)
+    try:
+        o = run_impl(case)
+    except Exception as ex:
+        print('implementation raises on this input:', repr(ex)[:300])
+        return 1
     bad = conclusions(o)
     print('theorem conclusions on the implementation now:', bad or 'hold')
     try:
